@@ -53,11 +53,10 @@ SPEC = {
     "harnesses": (
         [{"name": f"c04_admit_{k}", "path": MOD, "tiers": Q, "role": f"admission verdict/{k}", "stubs": ["crypto::aggsig::SecretKey::sign"], "covers": 3,
           "functions": ["SlotState::check_slashable_offence", "SlotState::should_ignore_vote"], "bounds": "held votes of 2 validators symbolic, new vote hash symbolic"} for k in KINDS]
-        + [{"name": f"c04_gate_{k}", "path": "consensus::pool::kani_c04_gate", "tiers": (Q if os.environ.get("VERIF_EXPERIMENTAL") else []), "role": f"pool admission gate/{k}", "covers": 4 if k in ("notar", "nfallback", "skip") else 3,
+        + [{"name": f"c04_gate_{k}", "path": "consensus::pool::kani_c04_gate", "tiers": Q, "role": f"pool admission gate/{k}", "covers": 4 if k in ("notar", "nfallback", "skip") else 3,
             "stubs": ["crypto::aggsig::SecretKey::sign", "consensus::pool::slot_state::SlotState::add_vote"], "timeout": {"quick": 600, "thorough": 1500}, "mem_gb": 12,
             "functions": ["PoolImpl::add_vote (up to the hand-over to SlotState::add_vote)", "PoolImpl::{slot_state,first_unpruned_slot,finalized_slot}", "SlotState::check_slashable_offence", "SlotState::should_ignore_vote", "ValidatedVote::into_vote"],
             "bounds": "fresh pool, 2 validators (stakes 1 and 9), slot 5; held votes of the voter symbolic (admissible sets), new vote hash symbolic; SlotState::add_vote (counting) replaced by a recording stub"} for k in KINDS]
-        + ([{"name": "c04_gx_probe", "path": "consensus::pool::kani_c04_gate", "tiers": Q, "role": "probe", "stubs": [], "covers": None, "mem_gb": 30, "timeout": 1800, "cbmc_args": PC.CBMC + ["--slice-formula"], "functions": [], "bounds": ""}] if os.environ.get("VERIF_EXPERIMENTAL") else [])
         + [{"name": f"c04_count_{k}", "path": MOD, "tiers": [], "role": f"counted once/{k}", "stubs": ["crypto::aggsig::SecretKey::sign"], "covers": 1,
             "functions": ["SlotState::add_vote", "SlotState::count_*_stake", "SlotState::check_slashable_offence", "SlotState::should_ignore_vote"], "bounds": "fresh slot state, one vote with symbolic hash, stakes 1/9"} for k in KINDS]
     ),
